@@ -20,6 +20,8 @@
 //      -> "ovl both B stateconc S maxconc M nstates K"      (B=1: both were inside the body at the same time)
 //   feplan <cat> <n> <N> <maxThreads> <wait> <exec>     cat ra|bi|fw
 //      -> "feplan n  cnt who ... | nsched S nwaits W"    per element: call count, runner (-1 caller pre-wait, -2 caller post-wait, j closure)
+//   fecap <cat> <n> <N> <maxThreads> <real 0|1> <api n|p>   wait=false; chunks kept queued, then the caller's heap functor is
+//        retargeted, poisoned and freed before they run  -> "fecap n cnt... | bad B decoy D nsched S parked P"
 //   pi <N> <cost> <shape>       shape = arities per level separated by ',' e.g. 3,2,2 ; leaves below the last level;
 //                               or L<d> / R<d> = left / right comb of depth d (arity 2), Z<d> = zigzag comb;
 //                               optional 4th argument 1 = forced overload (4N+2 blocker tasks parked on a latch);
@@ -39,6 +41,7 @@
 #include <map>
 #include <memory>
 #include <mutex>
+#include <set>
 #include <sstream>
 #include <string>
 #include <thread>
@@ -365,6 +368,138 @@ static void runFePlan(std::istringstream& in) {
   else runFePlanC<std::forward_list<Elem>>(n, N, maxThreads, wait, exec);
 }
 
+// ---------------------------------------------------------------------------------------------------- fecap
+// Does every scheduled chunk of for_each_n(wait=false) own the functor VALUE it was given at schedule time?
+// The functor is a heap object (state: pointer to the per-element counters + a validity canary).  All chunks are kept
+// queued while for_each_n returns (instrumented task set: closures deferred; real pool: every worker parked on a gate);
+// then the caller's functor is retargeted to a decoy array, its canary poisoned and the object freed; only then the
+// chunks run.  An application that sees the poisoned canary / lands in the decoy means the chunk did not carry its own
+// copy ("function not applied once per element").
+static const uint64_t kCanary = 0x600DF00D600DF00DULL;
+static std::atomic<long> g_badApps{0};
+struct CapElem {
+  int id = 0;
+};
+struct ApplyFn {
+  char pad[32];  // keep the live fields away from the bytes an allocator scribbles into freed blocks
+  std::atomic<int>* counters;
+  volatile uint64_t canary;
+  void hit(int id) const {
+    if (canary != kCanary) {
+      g_badApps.fetch_add(1);
+      return;
+    }
+    counters[id].fetch_add(1);
+  }
+  void operator()(CapElem& el) const {
+    hit(el.id);
+  }
+  void operator()(const int& id) const {
+    hit(id);
+  }
+};
+
+template <typename Cont, typename TS>
+static void capCall(TS& ts, Cont& c, size_t n, ApplyFn& fn, const dispenso::ForEachOptions& opt, bool pairApi) {
+  if (pairApi) {
+    auto e = c.begin();
+    std::advance(e, static_cast<ptrdiff_t>(n));
+    dispenso::for_each(ts, c.begin(), e, fn, opt);
+  } else {
+    dispenso::for_each_n(ts, c.begin(), n, fn, opt);
+  }
+}
+
+template <typename Cont>
+static void runFeCapC(Cont& c, size_t n, long N, long long maxThreads, int realPool, bool pairApi) {
+  std::vector<std::atomic<int>> counters(n + 1), decoy(n + 1);
+  for (auto& x : counters) x.store(0);
+  for (auto& x : decoy) x.store(0);
+  g_badApps = 0;
+  dispenso::ForEachOptions opt;
+  opt.maxThreads = static_cast<uint32_t>(maxThreads);
+  opt.wait = false;
+  ApplyFn* fn = new ApplyFn();
+  memset(fn->pad, 0, sizeof(fn->pad));
+  fn->counters = counters.data();
+  fn->canary = kCanary;
+  auto spoil = [&]() {
+    fn->counters = decoy.data();
+    fn->canary = 0xDEADDEADDEADDEADULL;
+    delete fn;
+  };
+  size_t nsched = 0;
+  int parkedOk = 1;
+  if (!realPool) {
+    MockTaskSet ts;
+    ts.N = N;
+    ts.exec = 0;
+    capCall(ts, c, n, *fn, opt, pairApi);
+    spoil();
+    ts.drain();
+    nsched = ts.nsched;
+  } else {
+    dispenso::ThreadPool pool(static_cast<size_t>(N));
+    std::atomic<int> parked{0}, gate{0};
+    for (long i = 0; i < N; ++i) {
+      pool.schedule(
+          [&parked, &gate]() {
+            parked.fetch_add(1);
+            while (!gate.load()) std::this_thread::sleep_for(std::chrono::microseconds(50));
+          },
+          dispenso::ForceQueuingTag());
+    }
+    auto t0 = std::chrono::steady_clock::now();
+    while (parked.load() < N && std::chrono::steady_clock::now() - t0 < std::chrono::seconds(3)) {
+      std::this_thread::sleep_for(std::chrono::microseconds(100));
+    }
+    parkedOk = parked.load() == N ? 1 : 0;
+    {
+      dispenso::TaskSet ts(pool);
+      capCall(ts, c, n, *fn, opt, pairApi);
+      spoil();
+      gate.store(1);
+      ts.wait();
+    }
+  }
+  long dec = 0;
+  for (auto& x : decoy) dec += x.load();
+  printf("fecap %zu ", n);
+  for (size_t i = 0; i < n; ++i) printf(" %d", counters[i].load());
+  printf(" | bad %ld decoy %ld nsched %zu parked %d\n", g_badApps.load(), dec, nsched, parkedOk);
+}
+
+//   fecap <cat> <n> <N> <maxThreads> <real 0|1> <api n|p>    cat ra|bi|fw|st (vector, list, forward_list, set); wait=false
+static void runFeCap(std::istringstream& in) {
+  std::string cat, api;
+  size_t n;
+  long N;
+  long long maxThreads;
+  int realPool;
+  in >> cat >> n >> N >> maxThreads >> realPool >> api;
+  bool pairApi = api == "p";
+  if (cat == "ra") {
+    std::vector<CapElem> c(n);
+    int k = 0;
+    for (auto& e : c) e.id = k++;
+    runFeCapC(c, n, N, maxThreads, realPool, pairApi);
+  } else if (cat == "bi") {
+    std::list<CapElem> c(n);
+    int k = 0;
+    for (auto& e : c) e.id = k++;
+    runFeCapC(c, n, N, maxThreads, realPool, pairApi);
+  } else if (cat == "fw") {
+    std::forward_list<CapElem> c(n);
+    int k = 0;
+    for (auto& e : c) e.id = k++;
+    runFeCapC(c, n, N, maxThreads, realPool, pairApi);
+  } else {
+    std::set<int> c;
+    for (size_t i = 0; i < n; ++i) c.insert(static_cast<int>(i));
+    runFeCapC(c, n, N, maxThreads, realPool, pairApi);
+  }
+}
+
 // ---------------------------------------------------------------------------------------------------- pi
 struct Node {
   int parent = -1, pos = 0, arity = 0;  // arity 0 = leaf
@@ -550,6 +685,8 @@ int main() {
       runOvl(in);
     } else if (cmd == "feplan") {
       runFePlan(in);
+    } else if (cmd == "fecap") {
+      runFeCap(in);
     } else if (cmd == "pi") {
       runPi(in);
     } else if (cmd.empty()) {
